@@ -63,6 +63,7 @@ func init() {
 	extendProp("C18", "(R18.12) Finalize of the partition-style and blue-green control planes returns nil only as the result of the workload controller's Finalize, or as IgnoreNotFound of the workload lookup.", r7C18)
 	importProp("C05", "C18", map[string]string{"R18.12": "R5.17"}, "(R5.17 = C18 R18.12) every exit releases the workload the release claimed.")
 	extendProp("C17", "(R17.13) getReplicaSetsForDeployment queries the ReplicaSet lister with the selector built from spec.selector (the template labels may change from one revision to the next; the selector cannot).", r7C17)
+	extendProp("C20", "(R20.10) the conversion functions contain no delete() on an object's annotations or labels (the ObjectMeta copy is shallow: source and destination share the maps); (R20.11) where source and destination have an optional scalar of the same name and type (pause.duration, …) the destination gets the source's pointer, not a value rebuilt from it.", r8C20)
 	extendProp("C08", "(R8.10) both admission handlers answer 'this workload is not selected by the webhook configuration' only after every entry and rule was examined (or the entry's selector cannot be parsed): the first entry whose rule matches does not decide alone.", r6C08)
 }
 
@@ -2076,5 +2077,88 @@ func r7C17(c *Ctx) {
 	}
 	if n == 0 {
 		c.Unresolved("R17.13", "getReplicaSetsForDeployment: lister List call")
+	}
+}
+
+// ---------------------------------------------------------------- C20 R20.10, R20.11 (round 8)
+
+func r8C20(c *Ctx) {
+	p := c.Prog
+	c.Rule("R20.10", "the converters never remove a key from the object's metadata maps", 4)
+	c.Rule("R20.11", "a same-named optional scalar is handed over as the pointer it is", 2)
+	for _, name := range []string{"api/v1alpha1.Rollout.ConvertTo", "api/v1alpha1.Rollout.ConvertFrom", "api/v1alpha1.BatchRelease.ConvertTo", "api/v1alpha1.BatchRelease.ConvertFrom"} {
+		fn := p.Func(name)
+		if fn == nil {
+			c.Unresolved("R20.10", name)
+			continue
+		}
+		bad := ""
+		for _, g := range samePkgClosure(p, fn) {
+			for _, ci := range AllCalls(g) {
+				bi, ok := ci.Common().Value.(*ssa.Builtin)
+				if !ok || bi.Name() != "delete" || len(ci.Common().Args) != 2 {
+					continue
+				}
+				if t := TermOf(ci.Common().Args[0]); t.Any(MField("Annotations")) || t.Any(MField("Labels")) || MField("Annotations")(t) || MField("Labels")(t) {
+					if !t.Any(MField("PatchPodTemplateMetadata")) {
+						bad = "delete(" + t.String() + ", …) at " + p.Pos(ci.Pos())
+					}
+				}
+			}
+		}
+		c.Ob("R20.10", name+"#no-metadata-delete", fn.Pos(), bad == "", "annotations and labels are only added to",
+			ifs(bad != "", bad+": the destination's ObjectMeta is a shallow copy of the source's, so the map is shared — the key disappears from the object being converted before (or after) it is read, and is lost in the other version"))
+		// R20.11
+		for _, g := range samePkgClosure(p, fn) {
+			if !strings.HasPrefix(FuncName(g), "api/v1alpha1.") {
+				continue
+			}
+			for _, b := range g.Blocks {
+				for _, in := range b.Instrs {
+					st, ok := in.(*ssa.Store)
+					if !ok {
+						continue
+					}
+					fa, ok := st.Addr.(*ssa.FieldAddr)
+					if !ok {
+						continue
+					}
+					pt, ok := st.Val.Type().Underlying().(*types.Pointer)
+					if !ok {
+						continue
+					}
+					if _, isBasic := pt.Elem().Underlying().(*types.Basic); !isBasic {
+						continue
+					}
+					fname, _ := FieldOf(fa)
+					// a source field of the same name and type somewhere in what the stored value is made of
+					var same ssa.Value
+					for x := range BackwardSlice(st.Val) {
+						ld, ok := x.(*ssa.UnOp)
+						if !ok || ld.Op != token.MUL {
+							continue
+						}
+						sfa, ok := ld.X.(*ssa.FieldAddr)
+						if !ok {
+							continue
+						}
+						if sn, _ := FieldOf(sfa); sn == fname && types.Identical(ld.Type(), st.Val.Type()) {
+							same = ld
+						}
+					}
+					if same == nil {
+						continue
+					}
+					okc := true
+					for _, lf := range Leaves(Forwarded(st.Val), b) {
+						if lf.V != same {
+							okc = false
+						}
+					}
+					c.Ob("R20.11", FuncName(g)+"#copy("+fname+")", st.Pos(), okc, "the optional "+fname+" is copied as a pointer (nil stays nil, 0 stays 0)",
+						ifs(!okc, "the value stored is "+TermOf(st.Val).String()+", rebuilt from the source's "+fname+" instead of being that pointer: a value the rebuild treats specially (an explicit 0, an empty string) reads back as absent in the other version, and a read-modify-write there stores the change"))
+				}
+			}
+		}
 	}
 }
